@@ -3,10 +3,11 @@
    read_yaml (frame/utils/utils.py) dispatches on the Python type of the
    argument of Netlist(stream):
      - a dict or a list: the tree itself;
-     - a str containing ': ' : YAML text, parsed by ruamel (YAML(typ='safe'));
-     - a str without ': '    : the name of a file whose contents are parsed;
-     - anything else must be a typing.TextIO - an assertion no object passes
-       (None, numbers, and in fact io streams as well): rejected.
+     - a str containing ': ' or a line break: YAML text, parsed by ruamel
+       (YAML(typ='safe'));
+     - any other str: the name of a file whose contents are parsed;
+     - an open text stream (io.TextIOBase): its contents are parsed;
+     - anything else (None, a number): AssertionError.
    The text layer is not modelled: [yaml_load] (text -> tree) and [file_text]
    (file name -> contents) are section variables.  Nothing is assumed about
    them; a parser error or a missing file is an exception that is no
@@ -37,9 +38,19 @@ Fixpoint has_colon_space (s : string) : bool :=
       end
   end.
 
+Fixpoint has_newline (s : string) : bool :=
+  match s with
+  | EmptyString => false
+  | String c r => Ascii.eqb c "010"%char || has_newline r
+  end.
+
+(* stream.find(": ") >= 0 or stream.find("\n") >= 0 *)
+Definition is_text (s : string) : bool := has_colon_space s || has_newline s.
+
 Inductive source : Type :=
 | SrcTree (t : ytree)       (* a dict / list (a list is refused by parse_yaml_netlist) *)
 | SrcStr (s : string)       (* a str: text or file name *)
+| SrcStream (txt : string)  (* an open text stream; txt = what stream.read() returns *)
 | SrcOther.                 (* any other object *)
 
 Inductive outcome : Type :=
@@ -59,7 +70,7 @@ Definition read_source (epsdef : option (Qc * Qc)) (src : source) : outcome :=
   match src with
   | SrcTree t => of_result (read_netlist sqrt_o epsdef t)
   | SrcStr s =>
-      let txt := if has_colon_space s then Some s else file_text s in
+      let txt := if is_text s then Some s else file_text s in
       match txt with
       | Some x => match yaml_load x with
                   | Some t => of_result (read_netlist sqrt_o epsdef t)
@@ -67,6 +78,10 @@ Definition read_source (epsdef : option (Qc * Qc)) (src : source) : outcome :=
                   end
       | None => Raised
       end
+  | SrcStream x => match yaml_load x with
+                   | Some t => of_result (read_netlist sqrt_o epsdef t)
+                   | None => Raised
+                   end
   | SrcOther => Rejected R_source
   end.
 
@@ -75,12 +90,16 @@ Theorem source_tree e t : read_source e (SrcTree t) = of_result (read_netlist sq
 Proof. reflexivity. Qed.
 
 Theorem source_text e s t :
-  has_colon_space s = true -> yaml_load s = Some t ->
+  is_text s = true -> yaml_load s = Some t ->
   read_source e (SrcStr s) = of_result (read_netlist sqrt_o e t).
 Proof. intros H1 H2. unfold read_source. rewrite H1, H2. reflexivity. Qed.
 
+Theorem source_stream e txt t :
+  yaml_load txt = Some t -> read_source e (SrcStream txt) = of_result (read_netlist sqrt_o e t).
+Proof. intros H. unfold read_source. rewrite H. reflexivity. Qed.
+
 Theorem source_file e name txt t :
-  has_colon_space name = false -> file_text name = Some txt -> yaml_load txt = Some t ->
+  is_text name = false -> file_text name = Some txt -> yaml_load txt = Some t ->
   read_source e (SrcStr name) = of_result (read_netlist sqrt_o e t).
 Proof. intros H1 H2 H3. unfold read_source. rewrite H1, H2, H3. reflexivity. Qed.
 
@@ -91,24 +110,29 @@ Theorem source_loaded_inv e src n :
   exists t, read_netlist sqrt_o e t = Ok n /\
     match src with
     | SrcTree t' => t' = t
-    | SrcStr s => exists txt, (if has_colon_space s then Some s else file_text s) = Some txt /\ yaml_load txt = Some t
+    | SrcStr s => exists txt, (if is_text s then Some s else file_text s) = Some txt /\ yaml_load txt = Some t
+    | SrcStream txt => yaml_load txt = Some t
     | SrcOther => False
     end.
 Proof.
-  destruct src as [t|s|]; cbn [read_source].
+  destruct src as [t|s|x|]; cbn [read_source].
   - destruct (read_netlist sqrt_o e t) as [n'|r] eqn:E; cbn; [|discriminate].
     intros H. inversion H; subst. exists t. split; [exact E|reflexivity].
-  - destruct (if has_colon_space s then Some s else file_text s) as [txt|] eqn:Et; [|discriminate].
+  - destruct (if is_text s then Some s else file_text s) as [txt|] eqn:Et; [|discriminate].
     destruct (yaml_load txt) as [t|] eqn:El; [|discriminate].
     destruct (read_netlist sqrt_o e t) as [n'|r] eqn:E; cbn; [|discriminate].
     intros H. inversion H; subst. exists t. split; [exact E|]. exists txt. split; [reflexivity|exact El].
+  - destruct (yaml_load x) as [t|] eqn:El; [|discriminate].
+    destruct (read_netlist sqrt_o e t) as [n'|r] eqn:E; cbn; [|discriminate].
+    intros H. inversion H; subst. exists t. split; [exact E|reflexivity].
   - discriminate.
 Qed.
 
 Corollary source_rejects e src :
   (forall t, match src with
              | SrcTree t' => t' = t
-             | SrcStr s => exists txt, (if has_colon_space s then Some s else file_text s) = Some txt /\ yaml_load txt = Some t
+             | SrcStr s => exists txt, (if is_text s then Some s else file_text s) = Some txt /\ yaml_load txt = Some t
+             | SrcStream txt => yaml_load txt = Some t
              | SrcOther => False
              end -> rejects (read_netlist sqrt_o e t)) ->
   forall n, read_source e src <> Loaded n.
